@@ -16,7 +16,7 @@ Ltac upd_case m n :=
 Ltac unfold_do :=
   unfold do_start, do_grant, do_bump, do_follow, do_count, do_win, do_client_append,
          do_send_append, do_recv_ok, do_recv_ack, do_advance, do_crash, do_lose_grant,
-         do_net_appends, do_drop_ack, do_flush in *.
+         do_net_appends, do_drop_ack, do_flush, do_install in *.
 
 Section RaftVotes.
 Variable V : list N.
@@ -313,6 +313,19 @@ Proof.
     + exact (Hk _ _ _ Hin).
 Qed.
 
+Lemma vinv_install s f t l K K2 c :
+  vinv s -> cur (st s f) <= t -> vinv (do_install f t l K K2 c s).
+Proof.
+  intros Hv Hterm.
+  apply (vinv_demote s _ f Hv); unfold do_install; simpl;
+    try reflexivity; try apply incl_refl.
+  - intros m0 Hne. apply upd_neq. exact Hne.
+  - rewrite upd_eq. simpl. exact Hterm.
+  - rewrite upd_eq. simpl. intros E.
+    destruct (N.ltb_spec (cur (st s f)) t) as [Hlt|_]; [lia | reflexivity].
+  - rewrite upd_eq. reflexivity.
+Qed.
+
 Lemma vinv_step s s' : vinv s -> step V s s' -> vinv s'.
 Proof.
   intros Hv Hstep. destruct Hstep.
@@ -380,6 +393,8 @@ Proof.
       try reflexivity; try apply incl_refl.
     + intros n0. upd_case n0 n; simpl; auto.
     + intros n0 Hr. upd_case n0 n; simpl; reflexivity.
+  - (* install *)
+    apply vinv_install; assumption.
 Qed.
 
 Lemma reachable_vinv s : Reachable V s -> vinv s.
